@@ -197,6 +197,7 @@ fn worker(id: &str, tier: &str, seed: u64, out: &str) -> i32 {
         let timed_out = timed_out.clone();
         let workdir = workdir.clone();
         let run_case = def.run_case;
+        let id_for_layout: &'static str = def.id;
         handles.push(
             std::thread::Builder::new()
                 .stack_size(64 << 20)
@@ -214,7 +215,12 @@ fn worker(id: &str, tier: &str, seed: u64, out: &str) -> i32 {
                         }
                         util::wal(&format!("case={} begin", case));
                         let r = std::panic::catch_unwind(std::panic::AssertUnwindSafe(|| {
+                            gen::layout_arm(ctx.seed, id_for_layout, case);
                             run_case(&ctx, case, &mut local);
+                            let (l2, l1) = gen::layout_stats_take();
+                            if l2 + l1 > 0 {
+                                local.count("arrays_in_nonstandard_memory_layout", l2 + l1);
+                            }
                         }));
                         if let Err(_) = r {
                             let msg = util::take_panic();
@@ -497,6 +503,7 @@ fn replay(file: &str) -> i32 {
     };
     util::install_panic_hook();
     let mut e = ev::Ev::new();
+    gen::layout_arm(ctx.seed, def.id, case);
     (def.run_case)(&ctx, case, &mut e);
     println!(
         "replayed property={} seed={} case={} evaluations={}",
